@@ -48,3 +48,82 @@ Fixpoint re_npath_ident_tail (l : str) : bool :=
   end.
 Definition re_npath_ident (l : str) : bool := match l with x :: l' => (fun x => ((65 <=? nat_of_ascii x) && (nat_of_ascii x <=? 90)) || ((97 <=? nat_of_ascii x) && (nat_of_ascii x <=? 122)) || (x =c c 95)) x && re_npath_ident_tail l' | [] => false end.
 
+(* GENERATED from cli/manipulations.py:_parse_npath (idiom A) *)
+Definition STATE__parse_npath : Type := (list (str * bool) * str * bool * bool * bool)%type.
+Definition _parse_npath_step (st : STATE__parse_npath) (ch : ascii) : res STATE__parse_npath :=
+  let '(segments, buffer, in_quotes, quoted_segment, escape) := st in
+(if in_quotes
+ then (if escape
+ then (if (ch =c (c 110))
+ then (let buffer_6 := buffer ++ [(c 10)] in
+(let escape_7 := false in
+Ok (segments, buffer_6, in_quotes, quoted_segment, escape_7)))
+ else (if (ch =c (c 114))
+ then (let buffer_8 := buffer ++ [(c 13)] in
+(let escape_9 := false in
+Ok (segments, buffer_8, in_quotes, quoted_segment, escape_9)))
+ else (if (ch =c (c 116))
+ then (let buffer_10 := buffer ++ [(c 9)] in
+(let escape_11 := false in
+Ok (segments, buffer_10, in_quotes, quoted_segment, escape_11)))
+ else (if ((ch =c (c 34)) || (ch =c (c 92)))
+ then (let buffer_12 := buffer ++ [ch] in
+(let escape_13 := false in
+Ok (segments, buffer_12, in_quotes, quoted_segment, escape_13)))
+ else (let buffer_14 := buffer ++ ([(c 92)] ++ [ch]) in
+(let escape_15 := false in
+Ok (segments, buffer_14, in_quotes, quoted_segment, escape_15)))))))
+ else (if (ch =c (c 92))
+ then (let escape_16 := true in
+Ok (segments, buffer, in_quotes, quoted_segment, escape_16))
+ else (if (ch =c (c 34))
+ then (let in_quotes_17 := false in
+(let quoted_segment_18 := true in
+Ok (segments, buffer, in_quotes_17, quoted_segment_18, escape)))
+ else (let buffer_19 := buffer ++ [ch] in
+Ok (segments, buffer_19, in_quotes, quoted_segment, escape)))))
+ else (if (ch =c (c 46))
+ then (let name_20 := buffer in
+(if ((negb quoted_segment) && (streq name_20 []))
+ then Err 15
+ else (if ((negb quoted_segment) && (negb (isnil name_20)) && (negb (re_npath_ident name_20)))
+ then Err 17
+ else (let segments_21 := segments ++ [(name_20, quoted_segment)] in
+(let buffer_22 : str := [] in
+(let quoted_segment_23 := false in
+Ok (segments_21, buffer_22, in_quotes, quoted_segment_23, escape)))))))
+ else (if (ch =c (c 34))
+ then (if (negb (isnil buffer))
+ then Err 52
+ else (let in_quotes_24 := true in
+Ok (segments, buffer, in_quotes_24, quoted_segment, escape)))
+ else (let buffer_25 := buffer ++ [ch] in
+Ok (segments, buffer_25, in_quotes, quoted_segment, escape))))).
+Fixpoint _parse_npath_loop (st : STATE__parse_npath) (s : str) : res STATE__parse_npath :=
+  match s with [] => Ok st | ch :: r => match _parse_npath_step st ch with Ok st' => _parse_npath_loop st' r | Err e => Err e end end.
+Definition _parse_npath (npath : str) : res (list (str * bool)) :=
+(if (negb (negb (isnil npath)))
+ then Err 3
+ else (let segments_1 : list (str * bool) := [] in
+(let buffer_2 : str := [] in
+(let in_quotes_3 := false in
+(let quoted_segment_4 := false in
+(let escape_5 := false in
+(match _parse_npath_loop (segments_1, buffer_2, in_quotes_3, quoted_segment_4, escape_5) npath with
+ | Err e => Err e
+ | Ok st => let '(segments', buffer', in_quotes', quoted_segment', escape') := st in
+(if escape'
+ then Err 60
+ else (if in_quotes'
+ then Err 62
+ else (let name_26 := buffer' in
+(if ((negb quoted_segment') && (streq name_26 []))
+ then Err 15
+ else (if ((negb quoted_segment') && (negb (isnil name_26)) && (negb (re_npath_ident name_26)))
+ then Err 17
+ else (let segments_27 := segments' ++ [(name_26, quoted_segment')] in
+(let buffer_28 : str := [] in
+(let quoted_segment_29 := false in
+Ok segments_27)))))))) end))))))).
+
+(* raise sites: 8 *)
